@@ -13,7 +13,7 @@ The theorems below are the protocol's safety core, for every configuration: an a
 never dropped; a later one never overwrites it; re-arming after an interruption hands the parked outcome to the fresh
 future; a completed wait activates the continuation with exactly that value (`C13_wait_resume_exact`).
 
-**History level** (second half of the file; helper lemmas in `PM/Proof11.lean` … `PM/Proof11f.lean`, namespace `PMF.H6`).
+**History level** (second half of the file; helper lemmas in `PM/Proof11.lean` … `PM/Proof11g.lean`, namespace `PMF.H6`).
 Property text: "the value passed to the first resume() is delivered exactly once to the continuation".
 
 * `C06_delivery` (at least once): in EVERY configuration reachable by any history, if the current WAITING state holds an
@@ -34,7 +34,8 @@ The only hypothesis on the history is `H6.histFuelOk`: no single callback of the
 process steps without suspending once.  It is needed: when `loopHead` runs out of fuel it returns with a STALE program
 counter, and the model's next tick would re-run an already consumed continuation (for instance wake a NEW wait with the
 value of an old one).  The real code can only match such a run by not returning from the callback; the driver never
-reaches it.  The hypothesis is a decidable `Bool` function of the program and the history (see the examples).
+reaches it (`C06_witness_fuel_exhaustion`, `C06_first_resume_wins_full_is_false`).  The hypothesis is a decidable `Bool`
+function of the program and the history (see the examples).
 -/
 namespace PMF
 
@@ -149,31 +150,33 @@ theorem C06_accepted_holds (c : Cfg) (fn : Nat) (v : Option Val) (h : Accepts c 
     have := C06_resume_parked c fn wf aw v k hst hk
     exact ⟨wf, some (.result v), aw, this.2.1, Or.inr ⟨⟨k, by rw [this.2.2]; exact hk⟩, rfl⟩, H6.resume_trace c v⟩
 
-/-- **C06 — the first accepted value wins, and it is delivered at most once (history level).**  Split any history at a
-`resume(v)` event that is accepted (`Accepts`) by the configuration `c₁` reached by the first part `evs₁`; let `evs₂` be
-ANY continuation (later `resume(u)` with other values, pause / play in any interleaving, interruptions that re-arm the
-wait, kill, fail, awaitable callbacks, ticks) and `c` the configuration at its end.  Then exactly one of the following
-describes `c`:
+/-- what can have become of a `resume(v)` that configuration `c₁` accepted for continuation `fn`, in a later
+configuration `c`:
 
 * the trace grew, and the FIRST activation logged after the accepted resume is `fn(*argsOf v)`, not started paused
   (`extra` are later activations: the continuation's successors);
-* nothing was activated since (`c.trace = c₁.trace`) and the process terminated (kill / fail / …), or is RUNNING
+* or nothing was activated since (`c.trace = c₁.trace`) and the process terminated (kill / fail / …), or is RUNNING
   `fn(*argsOf v)` between two steps (woken with `v`, activation still ahead — it is paused), or is still in the same
-  WAITING epoch whose wait still holds `v`.
+  WAITING epoch whose wait still holds `v`. -/
+def ResumeOutcome (c₁ c : Cfg) (fn : Nat) (v : Option Val) : Prop :=
+  (∃ extra, c.trace = extra ++ { fn := fn, args := H6.argsOf v, kw := [], paused := false } :: c₁.trace) ∨
+  (c.trace = c₁.trace ∧
+    (terminal c.st.label = true ∨
+     (c.st = .running fn (H6.argsOf v) [] ∧ c.stepping = false) ∨
+     ∃ wf wk aw, c.st = .waiting fn wf wk aw ∧ H6.Holds c wf wk v))
 
-In particular a later `resume(u)` never replaces `v`, nothing but `fn(v)` is activated next, and (the wait being consumed
-by that activation: the state is then RUNNING) the epoch's continuation is not activated a second time. -/
+/-- **C06 — the first accepted value wins, and it is delivered at most once (history level).**  Split any history at a
+`resume(v)` event that is accepted (`Accepts`) by the configuration `c₁` reached by the first part `evs₁`; let `evs₂` be
+ANY continuation (later `resume(u)` with other values, pause / play in any interleaving, interruptions that re-arm the
+wait, kill, fail, awaitable callbacks, ticks) and `c` the configuration at its end.  Then `ResumeOutcome c₁ c fn v`: the
+first activation logged since is `fn` with `v`'s arguments, or nothing was activated and `v` is still held / about to be
+passed / the process terminated.  In particular a later `resume(u)` never replaces `v`, nothing but `fn(v)` is activated
+next, and (the wait being consumed by that activation: the state is then RUNNING) the epoch's continuation is not
+activated a second time. -/
 theorem C06_first_resume_wins (P : Prog) (nf : Nat) (evs₁ evs₂ : List Ev) (fn : Nat) (v : Option Val)
     (hfuel : H6.histFuelOk P (init nf) (evs₁ ++ .resume v :: evs₂) = true)
     (hacc : Accepts (run P (init nf) evs₁) fn) :
-    (∃ extra, (run P (init nf) (evs₁ ++ .resume v :: evs₂)).trace =
-        extra ++ { fn := fn, args := H6.argsOf v, kw := [], paused := false } :: (run P (init nf) evs₁).trace) ∨
-    ((run P (init nf) (evs₁ ++ .resume v :: evs₂)).trace = (run P (init nf) evs₁).trace ∧
-      (terminal (run P (init nf) (evs₁ ++ .resume v :: evs₂)).st.label = true ∨
-       ((run P (init nf) (evs₁ ++ .resume v :: evs₂)).st = .running fn (H6.argsOf v) [] ∧
-          (run P (init nf) (evs₁ ++ .resume v :: evs₂)).stepping = false) ∨
-       ∃ wf wk aw, (run P (init nf) (evs₁ ++ .resume v :: evs₂)).st = .waiting fn wf wk aw ∧
-          H6.Holds (run P (init nf) (evs₁ ++ .resume v :: evs₂)) wf wk v)) := by
+    ResumeOutcome (run P (init nf) evs₁) (run P (init nf) (evs₁ ++ .resume v :: evs₂)) fn v := by
   rw [H6.histFuelOk_append, Bool.and_eq_true] at hfuel
   obtain ⟨hf1, hf2⟩ := hfuel
   have hC1 := H6.run_coh P _ evs₁ (H6.coh_init nf) hf1
@@ -191,6 +194,11 @@ theorem C06_first_resume_wins (P : Prog) (nf : Nat) (evs₁ evs₂ : List Ev) (f
   | ready hst' hns ht' => exact Or.inr ⟨ht', Or.inr (Or.inl ⟨hst', hns⟩)⟩
   | over hterm ht' => exact Or.inr ⟨ht', Or.inl hterm⟩
   | done extra ht' => exact Or.inl ⟨extra, ht'⟩
+
+/-- `C06_first_resume_wins` without its fuel hypothesis (kept as a statement: it is FALSE of the model, see below) -/
+def C06_first_resume_wins_full : Prop :=
+  ∀ (P : Prog) (nf : Nat) (evs₁ evs₂ : List Ev) (fn : Nat) (v : Option Val), Accepts (run P (init nf) evs₁) fn →
+    ResumeOutcome (run P (init nf) evs₁) (run P (init nf) (evs₁ ++ .resume v :: evs₂)) fn v
 
 /-- the process is WAITING for continuation `fn` and NOTHING has been delivered to that wait: the wake-up slot is empty and
 the future is pending or carries an interruption -/
@@ -239,6 +247,26 @@ theorem C06_witness_fuel_exhaustion :
       (((run fuelWitness (init 0) ([.tick, .resume (some 7), .tick] ++ .resume (some 8) :: [.tick])).trace.take 1).map
         fun a => (a.fn, a.args)) = [(1001, [7])] := by decide +kernel
   exact ⟨⟨1, none, [], h1.1, Or.inl h1.2⟩, h2⟩
+
+/-- the statement without the fuel hypothesis is refuted by `fuelWitness`: the activation that follows the accepted
+`resume(8)` is logged with `[7]` -/
+theorem C06_first_resume_wins_full_is_false : ¬ C06_first_resume_wins_full := by
+  intro h
+  have hw := C06_witness_fuel_exhaustion
+  have hr := h fuelWitness 0 [.tick, .resume (some 7), .tick] [.tick] 1001 (some 8) hw.1
+  have ht : (run fuelWitness (init 0) ([.tick, .resume (some 7), .tick] ++ .resume (some 8) :: [.tick])).trace =
+      { fn := 1001, args := [7], kw := [], paused := false } ::
+        (run fuelWitness (init 0) [.tick, .resume (some 7), .tick]).trace := by decide +kernel
+  rcases hr with ⟨extra, he⟩ | ⟨he, _⟩
+  · rw [ht] at he
+    have hl := congrArg List.length he
+    simp only [List.length_cons, List.length_append] at hl
+    have : extra = [] := List.eq_nil_of_length_eq_zero (by omega)
+    subst this
+    simp [H6.argsOf] at he
+  · rw [ht] at he
+    have hl := congrArg List.length he
+    simp at hl
 
 -- non-vacuity and the races of section 9: pause then resume inside one loop iteration; the value arrives after play
 section
